@@ -48,6 +48,10 @@ type run struct {
 	stuck      bool
 	inTx       bool
 	stalled    map[*simmongo.Pending]int // database commands the simulated database is slow to answer
+	rd         *reader                   // the read-only observer, if the plan has one
+	cur        *curSync                  // the exchange event being driven (late joiners are added to it)
+	evSlow     int                       // this event: commands during which the whole database was slow (time jumped)
+	evStall    []string                  // this event: the commands the database sat on while everything else went on
 	rogueLog   []string                  // scenario runs: outcome of every rogue request
 	restLog    []string                  // scenario runs: outcome of every REST call
 	verHist    map[string][]string       // scenario runs: versions seen in each user document, in order
@@ -432,7 +436,11 @@ func (r *run) serve(inst *serverInst, c *call, req interface{}) (res callResult)
 			res = callResult{err: unavailable("server instance went down")}
 		}
 	}()
-	return invoke(inst, c.method, c.decodeReq())
+	req2 := c.decodeReq()
+	if r.cfg.PackOrder {
+		permutePacks(req2, kernel.Mix64(r.w.seed, uint64(c.id), uint64(c.copies), 1))
+	}
+	return invoke(inst, c.method, req2)
 }
 
 // answerCmd lets one database command proceed, applying the exchange's fault plan.
@@ -467,12 +475,20 @@ func (r *run) answerCmd(p *simmongo.Pending, faults []MongoFault) {
 				crash = f.Kind
 			case "slow":
 				r.fault("mongo-slow")
-				w.tick(time.Duration(5500+w.lat.Intn(3000)) * time.Millisecond)
+				r.evSlow++
+				total := time.Duration(5500+w.lat.Intn(3000)) * time.Millisecond
+				if r.cur != nil && len(r.cur.late) > 0 {
+					w.tick(5050 * time.Millisecond)
+					r.joinLate()
+					total -= 5050 * time.Millisecond
+				}
+				w.tick(total)
 			case "stall":
 				// the database sits on this command while everything else goes on
 				if _, seen := r.stalled[p]; !seen {
 					r.cmdNo[p.Owner]--
 					r.fault("mongo-stall")
+					r.evStall = append(r.evStall, p.Coll+" "+p.Key)
 					r.stalled[p] = 8 + w.lat.Intn(20)
 					r.logf("  db %s #%d %s is stalled", p.Owner, k, p.Name)
 					return
@@ -584,6 +600,8 @@ func (r *run) deliverResp(c *call, drop bool) {
 	if drop {
 		res = callResult{err: unavailable("response lost")}
 		c.dropped = true
+	} else if r.cfg.PackOrder && res.msg != nil {
+		permutePacks(res.msg, kernel.Mix64(r.w.seed, uint64(c.id), uint64(c.copies), 2))
 	}
 	r.mon.onResponse(r, c, res, drop)
 	r.noteErrorPacks(c, res)
@@ -642,7 +660,7 @@ func (r *run) checkErrorPacks(c *call) {
 		nerr := len(d.errs)
 		d.mu.Unlock()
 		r.probe("error-pack-delivered")
-		if nerr <= ps.errs {
+		if nerr <= ps.errs && !d.noErr {
 			r.fail("refuse", "C16.error-reported", "handler-not-called", "%s: the answer for %s carried an error (option %s) but the client's error handler was not called", c.client, k, ps.opt)
 			r.fail("retry", "C08.error-reported", "handler-not-called", "%s: the answer for %s carried an error (option %s) but the client's error handler was not called", c.client, k, ps.opt)
 		}
